@@ -633,12 +633,12 @@ Definition redefault (p : policy) (v : Z) : policy :=
    each name is governed by the COPY's own rules — instance traits are not copied.
    __getstate__ = trait_get(transient = None) (l.1299): the names of traits() (l.3017-3028: the declared
    class traits __base_traits__ in order, then the instance traits, then the names in obj.__dict__ that
-   have a (cached) class trait) whose trait is not transient (Python, Any, typed, ReadOnly; not Constant,
-   Event, Disallow), each with the value getattr gives (defaults are materialised on the original; a name
-   whose read raises AttributeError is skipped).  The restore stops at the first assignment that raises;
+   have a (cached) class trait) whose trait is not transient (Constant and Event are; Disallow is not,
+   but its read raises unless a stale value shadows it), each with the value getattr gives (defaults are
+   materialised on the original; a name whose read raises AttributeError is skipped).  The restore stops at the first assignment that raises;
    the half-restored object is dropped.  [ct0]: the declared class traits of the class. *)
 Definition persists (p : policy) : bool :=
-  match p with PPython | PAny _ | PTyped _ _ | PReadOnly _ => true | _ => false end.
+  match p with PPython | PAny _ | PTyped _ _ | PReadOnly _ | PDisallow => true | _ => false end.
 
 Definition clone_names (ct0 : ctab) (s : state) : list name :=
   map fst ct0
